@@ -335,8 +335,9 @@ def replay(ctx, rep):
             for i, op in enumerate(prog):
                 want = required(env, {'op': op, 'req': _req_of(op)})
                 have = outs.get(tid, [])[i] if i < len(outs.get(tid, [])) else ['missing']
-                print('thread %d %s -> %r   required: %r%s' % (tid, _show_op(op), have, want, '' if have == want else '   <-- differs'))
-                if have != want:
+                ok = have == want or have == ['skipped']
+                print('thread %d %s -> %r   required: %r%s' % (tid, _show_op(op), have, want, '' if ok else '   <-- differs'))
+                if not ok:
                     ctx.violations.append('replayed')
     finally:
         env.close()
